@@ -15,6 +15,7 @@ import DateutilVerif.Proofs.RRuleStrOrder
 import DateutilVerif.Proofs.RRuleStrSet
 import DateutilVerif.Proofs.RRuleStrSpell
 import DateutilVerif.Proofs.RRuleStrOpts
+import DateutilVerif.Proofs.RRuleStrRule
 
 namespace C13
 open RRuleStr
@@ -97,9 +98,14 @@ example : parseRfc (lit "INTERVAL=2") {} = .error .ValueError := by decide      
 
 /-! ## 3. letter case -/
 
-/-- the text is upper-cased as a whole before anything else: the case of the input is irrelevant.
-    (Honest note: this includes the UNTIL / DTSTART / RDATE / EXDATE date texts and TZID names, which reach
-    `parser.parse` upper-cased; TZID names are mapped back through `TZID_NAMES`, outside this model.) -/
+/-- the text is upper-cased as a whole before anything else: for everything `parseRfc` returns — the RRULE / EXRULE parts,
+    the property names, the parameters and the date texts — the letter case of the input is irrelevant.
+    Scope, honestly: this covers the RRULE parts and the line dispatch ONLY.  (1) The UNTIL / DTSTART / RDATE / EXDATE date
+    texts and TZID parameter values reach `parser.parse` / the parameter loop upper-cased.  (2) The zone NAME handed to the
+    `tzids` lookup is NOT part of `parseRfc`'s result: it is `tzidOf text opts parms` (`Model/RRuleStr.lean`), taken from the
+    text AS WRITTEN through the case-insensitive name table, so `dtstart;tzid=Foo/Bar:` looks up `Foo/Bar` while the
+    upper-cased text looks up `FOO/BAR` — the same name only up to letter case.  No theorem is stated about `tzidOf`; it is
+    tied to `TZID_NAMES` / `_parse_date_value` by the correspondence (every spelling, folded too) and by the oracle. -/
 theorem case_irrelevant (s : List Char) (o : Opts) (kw : Bool) : parseRfc (upper s) o kw = parseRfc s o kw := by
   unfold parseRfc; rw [upper_idem]
 
@@ -151,13 +157,20 @@ example : parseRRuleLine po (lit "COUNT=3;BYDAY=MO;FREQ=WEEKLY") = parseRRuleLin
 
 /-! ## 6. str / rrulestr round trip -/
 
-/-- the `RRULE:` line of `str(rule)` parses back to exactly the printed arguments, for EVERY rule in printable normal form
-    (`Printable`: freq < 7, wkst in 0..6, BY-lists non-empty when present, weekday numbers 0..6 with n ≠ 0 when present;
-    interval, count and all list members arbitrary integers) -/
+/-- the `RRULE:` line of `str(rule)` parses back to exactly the printed arguments `argsOf x`, for EVERY rule in printable
+    form (`Printable`: freq < 7, wkst in 0..6, recorded weekday numbers 0..6 with n ≠ 0 when present; interval, count, all
+    BY-lists and their members arbitrary — BY-lists may be empty).
+    NOTE (known finding D-C13-empty-by-list): `argsOf x` holds the NON-EMPTY recorded BY-lists only (`normL`).  A rule
+    built with an empty BY sequence, e.g. `rrule(YEARLY, bymonthday=())`, records `()`, prints nothing for it, and the
+    reparsed rule gets the argument as ABSENT, so `rrule()` re-derives the default from the start: the text round trip
+    below holds, "same occurrences" does not (see `empty_by_list_is_lost`). -/
 theorem str_roundtrip_line (x : StrIn) (hx : Printable x) : parseRRuleLine po (rruleLineOf x) = .ok (argsOf po x) :=
   parseRRuleLine_rruleLineOf x hx
 
-/-- the compact date form `YYYYMMDDTHHMMSS` that `__str__` emits for DTSTART and UNTIL reads back field by field -/
+/-- the compact date form `YYYYMMDDTHHMMSS` that `__str__` emits for DTSTART and UNTIL reads back field by field with
+    `parseCompact`.  NOTE: `parseCompact` is the DISPLAY helper the driver uses to print date values in the correspondence
+    (`Ops/RRuleStr.lean`), not a model of `parser.parse`; the real reader of these texts is `parser.parse` (C02), and that
+    it reads this form as these fields is tied by the correspondence and the oracle only. -/
 theorem compact_roundtrip (y m d hh mm ss : Nat) (hy : y < 10000) (hm : m < 100) (hd : d < 100) (hh' : hh < 100)
     (hmm : mm < 100) (hss : ss < 100) : parseCompact (showDT (y, m, d, hh, mm, ss)) = .compact y m d hh mm ss false :=
   parseCompact_showDT y m d hh mm ss hy hm hd hh' hmm hss
@@ -186,14 +199,36 @@ theorem str_roundtrip_any_order_any_case (x : StrIn) (hx : Printable x) (qs : Li
   refine ⟨by rw [hcase]; exact parseRRuleLine_perm x hx qs hperm, ?_⟩
   rw [← case_irrelevant txt, hcase]
 
+/-- what D-C13-empty-by-list looks like in the model: an empty recorded BY-list is not printed and comes back as absent
+    (`none`), whatever the rest of the rule; the original arguments had `some []` there -/
+theorem empty_by_list_is_lost (x : StrIn) (h : x.orig.bymonthday = some []) :
+    (argsOf po x).bymonthday = none ∧ x.orig.bymonthday ≠ none := by
+  constructor
+  · simp [argsOf, normL, h]
+  · rw [h]; simp
+
+/-- **the printed arguments lead back to the rule** (C13 ∘ C01): for a rule `r = rrule(**a)`, `rrulestr(str(r))` hands the
+    constructor arguments that build exactly `r` again, hence the same occurrences.  All hypotheses are explicit; the
+    first is the class of the known finding D-C13-empty-by-list (there the statement is false on the real code), and the
+    date values are taken over unchanged (`backArgs`): that `parser.parse` reads the compact text back is C02, tied here
+    by the correspondence and the oracle only. -/
+theorem str_roundtrip_rule (a : RRule.Args) (r : RRule.Rule) (h : RRule.construct a = .ok r) (hsp : a.bysetpos ≠ some [])
+    (hne : NoEmptyBy (RRule.origArgs a r)) (hpr : Printable (strInOf (RRule.origArgs a r)))
+    (hf : 0 ≤ (RRule.origArgs a r).freq)
+    (o : Opts) (hu : o.unfold = false) (hfs : o.forceset = false) (hc : o.compatible = false) (kw : Bool) :
+    ∃ pa dt, parseRfc (toStr (strInOf (RRule.origArgs a r))) o kw = .ok (.rule pa (some dt) o.cache) ∧
+      RRule.construct (backArgs (RRule.origArgs a r) pa) = .ok r :=
+  parse_toStr_constructs_same_rule a r h hsp hne hpr hf o hu hfs hc kw
+
 /-- a rule with most things in it: nth weekdays of both signs, negative list members, WKST, INTERVAL, UNTIL, year < 1000 -/
 def sample : StrIn :=
   { dtstart := some (999, 1, 2, 3, 4, 5), freq := 1, interval := 2, wkst := 6, count := none,
     untilV := some (2000, 12, 31, 23, 59, 59),
-    orig := { bymonthday := some [-1, 15], byweekday := some [(0, some 1), (4, some (-2)), (6, none)], byeaster := some [0, -2] } }
+    orig := { bymonthday := some [-1, 15], byweekday := some [(0, some 1), (4, some (-2)), (6, none)], byeaster := some [0, -2],
+              byyearday := some [] } }
 
 example : Printable sample := by
-  constructor <;> first | decide | (intro l h; cases h; exact ⟨by decide, by decide⟩)
+  constructor <;> first | decide | (intro l h; cases h; decide)
 example : (argsOf {} sample).byweekday = some [(0, some 1), (4, some (-2)), (6, none)] ∧ (argsOf {} sample).wkst = some 6 := by decide
 
 example : (partsOf sample).Perm (partsOf sample).reverse ∧ upper (lit "byeaster=0,-2") = lit "BYEASTER=0,-2" :=
